@@ -1,11 +1,12 @@
 import PartituraModel.Wire
-import PartituraModel.Model.MergeCall
+import PartituraModel.Model.MergeFloat
 
 open Wire Model.Merge
 
 /-
 requests:   <op> <reassign> <shape>
-  op     merge | quarters | rows | ref | dangling | tails | parts | distinct
+  op     merge | quarters | rows | ref | scoreref | newid | dangling | tails | parts | distinct
+         | mult <L> <d>  (no further tokens: `int(lcm / d)` as the live source computes it)
          | load (= load_score_as_part; the reassign token is ignored: the model takes what the source passes)
   reassign   the (percent-encoded) value of `reassign`: voice | staff | auto | anything else (rejected like the
          ValueError of the code) | `-` (the argument is left out: the default of the signature)
@@ -144,6 +145,11 @@ def fmtResult (m : Mode) (ps : List APart) : Result → String
 
 def handle (ts : List String) : String :=
   match ts with
+  | ["mult", l, d] =>
+    -- `int(lcm / d)` as the live source computes it (Model/MergeFloat.lean)
+    match l.toNat?, d.toNat? with
+    | some L, some dv => (match multAsCoded L dv with | some k => fmtNat k | none => "err")
+    | _, _ => "bad-request"
   | op :: rtok :: rest =>
     match run pArg rest with
     | none => "bad-request"
@@ -161,6 +167,13 @@ def handle (ts : List String) : String :=
       | "ref" =>
         match xargParts a with
         | .ok parts => fmtList fmtSound ((refSound (distinctParts parts)).mergeSort soundLe)
+        | .error _ => "err"
+      | "scoreref" =>
+        -- the score-level note array as computed (a part without notes counts with divisions 1), with its divisions
+        match xargParts a with
+        | .ok parts =>
+          fmtTuple [fmtNat (scoreDivs (distinctParts parts)),
+                    fmtList fmtSound ((scoreSound (distinctParts parts)).mergeSort soundLe)]
         | .error _ => "err"
       | _ =>
         let reassign := if op == "load" then Gen.C15.loadReassign else parseReassign rtok
@@ -183,6 +196,13 @@ def handle (ts : List String) : String :=
             match r with
             | .same _ => "same"
             | .merged _ _ => fmtList (fun tp => fmtNat tp.quarter) (newTimeline m parts)
+          | "newid" =>
+            match r with
+            | .same _ => "same"
+            | .merged _ _ =>
+              (match newPartName parts with
+               | some nm => fmtOpt (fun x => x) nm
+               | none => "err")
           | "rows" => fmtList fmtRow ((rows (resultElems r)).mergeSort rowLe)
           | "dangling" =>
             match r with
